@@ -75,7 +75,8 @@ def execute(sched: dict) -> dict:
     from . import oracles
     from .worker import Worker
 
-    t0 = time.time()
+    real_time = time.time
+    t0 = real_time()
     w = Worker(0)
     store = {}
     outs = []
@@ -113,7 +114,7 @@ def execute(sched: dict) -> dict:
         "history_digest": history_digest(sched["events"], outs),
         "violations": V, "harness_errors": H, "notes": notes[:20],
         "keys": {k: v[0] for k, v in keys.items()},
-        "stats": stats, "wall": time.time() - t0, "n_events": len(outs),
+        "stats": stats, "wall": real_time() - t0, "n_events": len(outs),
         "outs_brief": [{"seq": e["seq"], "kind": e["kind"], "class": o.get("class")} for e, o in
                        zip(sched["events"], outs)],
     }
@@ -304,6 +305,7 @@ def ensure_numba_cache():
     """Warm the Numba cache for the current tree once, in one process, before a pool is forked."""
     import subprocess
 
+    env.ensure_native()
     th = env.tree_hash()
     d = env.numba_cache_dir("shared", th)
     marker = os.path.join(d, ".warm")
